@@ -178,7 +178,7 @@ func (rs *runState) explore(e *Entry, params map[string]int, maxPaths int) *entr
 		r := <-results
 		inflight--
 		st.Paths++
-		if st.Paths%5000 == 0 {
+		if st.Paths%50000 == 0 {
 			fmt.Fprintf(os.Stderr, "gosym: ... %s: %d paths, %d queued, %d violations, %.0fs\n", e.Func, st.Paths, len(stack), len(st.violations), time.Since(t0).Seconds())
 		}
 		if r.err != nil {
@@ -308,7 +308,7 @@ func replayNative(ov *Overlay, work string, pkgDirRel string, runs []replayRun, 
 	if err := os.WriteFile(rf, b, 0o644); err != nil {
 		return nil, "", err
 	}
-	of := filepath.Join(work, "overlay.json")
+	of := filepath.Join(work, "overlay_"+tag+".json")
 	if err := ov.writeGoOverlay(of); err != nil {
 		return nil, "", err
 	}
@@ -492,6 +492,7 @@ func checkMain(id, tier string) int {
 	}()
 
 	var stats []*entryStats
+	pathsSinceStart := 0
 	for i := range cfg.Entries {
 		e := &cfg.Entries[i]
 		if len(e.Tiers) > 0 {
@@ -524,7 +525,25 @@ func checkMain(id, tier string) int {
 		if v, ok := e.MaxPaths[tier]; ok {
 			mp = v
 		}
+		if pathsSinceStart > 4000 {
+			// workers accumulate interpreter and term-table garbage: start fresh ones
+			var wg sync.WaitGroup
+			for k := range rs.workers {
+				wg.Add(1)
+				go func(k int) {
+					defer wg.Done()
+					old := rs.workers[k]
+					if nw, err := startWorker(old.id, initFile); err == nil {
+						old.kill()
+						rs.workers[k] = nw
+					}
+				}(k)
+			}
+			wg.Wait()
+			pathsSinceStart = 0
+		}
 		st := rs.explore(e, params, mp)
+		pathsSinceStart += st.Paths
 		stats = append(stats, st)
 		fmt.Fprintf(os.Stderr, "gosym: %s %s %s: paths=%d done=%d aborted=%d truncated=%d panicked=%d errors=%d violations=%d queries=%d solver=%.1fs wall=%.1fs exhausted=%v\n",
 			id, tier, e.Func, st.Paths, st.Done, st.Aborted, st.Truncated, st.Panicked, st.Errors, len(st.violations), st.Queries, st.SolverS, st.WallS, st.Exhausted)
@@ -580,8 +599,29 @@ func checkMain(id, tier string) int {
 			pk = append(pk, p)
 		}
 		sort.Strings(pk)
+		type rres struct {
+			outs map[int]replayOut
+			logs string
+			err  error
+		}
+		results := make([]rres, len(pk))
+		{
+			var wg sync.WaitGroup
+			sem := make(chan struct{}, 4)
+			for n, p := range pk {
+				wg.Add(1)
+				go func(n int, p string) {
+					defer wg.Done()
+					sem <- struct{}{}
+					defer func() { <-sem }()
+					o, l, e := replayNative(ov, work, ov.PkgDirs[p], byPkgRuns[p], strconv.Itoa(n))
+					results[n] = rres{o, l, e}
+				}(n, p)
+			}
+			wg.Wait()
+		}
 		for n, p := range pk {
-			outs, logs, err := replayNative(ov, work, ov.PkgDirs[p], byPkgRuns[p], strconv.Itoa(n))
+			outs, logs, err := results[n].outs, results[n].logs, results[n].err
 			os.WriteFile(filepath.Join(work, fmt.Sprintf("replay_%d.log", n)), []byte(logs), 0o644)
 			if err != nil {
 				replayErr = err
